@@ -194,26 +194,32 @@ def finish(prop, tier, seed, results, meta, wall, verbose):
     known_hits = []
     lines = []
     for r in vio:
-        # one report per distinct failing goal, at most 4 per obligation
+        # every goal that failed on the real code is matched against the known findings on its own
+        # (a listed finding never hides another failing goal of the same obligation); at most 4
+        # unlisted goals per obligation get a replay file and a VIOLATION line
         seen_lab = set()
-        uniq = []
+        unknown = []
         for v in r["violations"]:
-            if v["label"] not in seen_lab:
-                seen_lab.add(v["label"])
-                uniq.append(v)
-        for k, v in enumerate(uniq[:4]):
-            text = _match_known(known, prop, r["key"], v["label"])
-            if text is not None:
-                known_hits.append((r["name"], v["label"], text))
-                continue
+            labs = [f[0] for f in v.get("failures", [])] or [v["label"]]
+            for lab in labs:
+                if lab in seen_lab:
+                    continue
+                seen_lab.add(lab)
+                text = _match_known(known, prop, r["key"], lab)
+                if text is not None:
+                    known_hits.append((r["name"], lab, text))
+                else:
+                    unknown.append((lab, v))
+        for k, (lab, v) in enumerate(unknown[:4]):
             os.makedirs(REPLAYS, exist_ok=True)
             fn = os.path.join(REPLAYS, f"{prop}_{_safe(r['name'])}_{k}.json")
             with open(fn, "w") as f:
-                json.dump({"property": prop, "obligation": r["name"], "label": v["label"], "how": v["how"],
-                           "env": v["env"], "failures": v["failures"], "seed": seed, "tier": tier}, f, indent=1, default=str)
+                json.dump({"property": prop, "obligation": r["name"], "label": lab, "how": v["how"],
+                           "env": v["env"], "failures": [x for x in v["failures"] if x[0] == lab][:3] or v["failures"][:3],
+                           "seed": seed, "tier": tier}, f, indent=1, default=str)
             lines.append(f"VIOLATION property={prop} replay={fn}")
-            print(f"  violated obligation {r['name']}: {v['label']} :: {v['failures'][:2]}")
-            new_violations += 1
+            print(f"  violated obligation {r['name']}: {lab[:300]} :: {[x[1] for x in v['failures'] if x[0] == lab][:1]}")
+        new_violations += len(unknown)
     printed = set()
     for name, label, text in known_hits:
         if text not in printed:
